@@ -133,7 +133,11 @@ def tla_set(xs):
 TRACE_INVS = ["C01_AtMostOnce", "C01_RealTimeFIFO", "C01_NoOverlap", "C01_Fold", "C02_OwnResult", "C02_Resolves",
               "C03_Order", "C03_HandlersInside", "C03_Graceful", "C03_StartErr",
               "C04_Drain", "C04_NoLate", "C04_StopTerminates", "C04_AnnounceAfter",
-              "C05_KeepAlive", "C05_DrainOnDrop", "C05_UpgradeDead", "C06", "C07", "C08", "C09_ExactlyOnce", "C09_Delivered", "C09_CommonOrder", "C09_PublisherOrder", "C09_BrokerNeverFails", "C10", "C11", "C12", "C13", "C13_FairSelect", "C14", "C15", "C16", "C17"]
+              "C05_KeepAlive", "C05_DrainOnDrop", "C05_UpgradeDead", "C06", "C07", "C08", "C09_ExactlyOnce", "C09_Delivered", "C09_CommonOrder", "C09_PublisherOrder", "C09_BrokerNeverFails", "C10", "C11", "C12", "C13", "C10_TicksAfterStreamEnd", "C13_FairSelect", "C14", "C15", "C16", "C17"]
+
+
+# invariants that speak for more than the property they are named after
+INV_PROPS = {"C10_TicksAfterStreamEnd": ["C10", "C13"]}
 
 
 def validate_shard(traces, dev, workdir, tag, timeout=1500, profile="debug", stop=None, note=None, max_rounds=12):
@@ -193,7 +197,7 @@ def validate_shard(traces, dev, workdir, tag, timeout=1500, profile="debug", sto
             k, off = locate(max(1, p - 1))
             for i in todo[:k]:
                 results[i] = {"ok": True}
-            results[todo[k]] = {"ok": False, "kind": "invariant", "invariant": m.group(1), "offset": off, "props": [m.group(1)[:3]]}
+            results[todo[k]] = {"ok": False, "kind": "invariant", "invariant": m.group(1), "offset": off, "props": INV_PROPS.get(m.group(1), [m.group(1)[:3]])}
             if note:
                 note(results[todo[k]])
             todo = todo[k + 1:]
@@ -487,10 +491,17 @@ class Prog:
             return True
         return False
 
-    def run(self, n, drop_all=False):
+    def run(self, n, drop_all=False, probes=False):
         for _ in range(n):
             if not self.step():
                 break
+        if probes:
+            # what the weak handles say in the end, whatever has happened to the actor meanwhile
+            for x, k in sorted(self.h.items()):
+                if k == "waddr":
+                    self.ops += [{"op": "yield"}, {"op": "stopped", "h": x}, {"op": "upgrade", "h": x, "nh": self.fresh(), "to": self.c}, {"op": "stopped", "h": x}]
+                elif k in ("wsender", "wcaller"):
+                    self.ops += [{"op": "yield"}, {"op": "upgrade", "h": x, "nh": self.fresh(), "to": self.c}]
         if drop_all:
             # let go of everything at the end: the actor's fate is then decided by who else holds it
             for x, k in sorted(self.h.items()):
